@@ -206,9 +206,15 @@ pub fn apply(disk: &mut Disk, s: &Surgery) -> Result<(), String> {
         Surgery::FeatureVariationsMulti { table, records } => {
             append_feature_variations(disk, table, feature_variations_multi(records))
         }
-        Surgery::InstallMorx { glyphs, variant } => {
+        Surgery::InstallMorx {
+            glyphs,
+            variant,
+            hazard,
+        } => {
             let n = num_glyphs(disk)?;
-            let table = morx_build::build_morx(n, glyphs, *variant);
+            let table = hazard
+                .and_then(|h| morx_build::build_morx_hazard(n, glyphs, h))
+                .unwrap_or_else(|| morx_build::build_morx(n, glyphs, *variant));
             disk.tables.insert(tag_from_str("morx"), Rc::new(table));
             disk.tables.remove(&tag_from_str("GSUB"));
             Ok(())
